@@ -186,9 +186,10 @@ func opVersionToSpan(typ tokType, op string, lo *Version) (span, error) {
 
 	case tokLess:
 		// Special horrible cases.
-		if lo.all(wildcard) || lo.all(0) && len(lo.pre) == 0 {
+		if lo.all(wildcard) || lo.all(0) && len(lo.pre) == 0 && !lo.IsPrerelease() && !lo.isPyPIPost() && !lo.isPyPIDev() {
 			// Nothing is below * or 0.0.0, but prereleases
-			// of 0.0.0 are below 0.0.0-pre.
+			// of 0.0.0 are below 0.0.0-pre (and, in PEP 440, 0 itself
+			// is below 0.post1 and 0.dev0 below 0a1).
 			return span{rank: empty}, nil
 		}
 		// Nothing after a wildcard counts: <1.x.3 is <1.0.0.
